@@ -677,6 +677,13 @@ def _str_method(I, o, name):
     def strip(I, a, k):
         if _allc(a):
             return o.strip(*a)
+        if not a and not k:
+            # whitespace stripping as an uninterpreted function with the facts every use here needs: the result is a substring, not longer
+            # than the operand, and the empty string strips to itself.  Counter-models over it are replayed natively before they count.
+            f = z3.Function("str.strip", z3.StringSort(), z3.StringSort())
+            r = f(o.t)
+            I.ctx.assume(z3.And(z3.Length(r) <= z3.Length(o.t), z3.Contains(o.t, r), z3.Implies(z3.Length(o.t) == 0, z3.Length(r) == 0)))
+            return Sym(r, "str")
         raise OutsideSubset("strip on a symbolic string")
 
     def isdigit(I, a, k):
